@@ -1,6 +1,144 @@
-"""C16 rules (placeholder: fail-closed until the rules are implemented)."""
-from ..loader import AnalysisError
+"""C16 - touch makes the selected cone look completed without changing file contents."""
+import ast
+
+from ..index import FuncInfo, dotted, walk_no_nested, loc
+from ..paths import RETURN, Explorer, Semantics, State, fmt_trace
+from .c02 import rule_cone_selection
+from .persist import _calls, rule_close_writes, rule_exit_persists
+
+
+class VisitSem(Semantics):
+    loop_bound = 1
+
+    def __init__(self, ctx, finfo):
+        super().__init__(ctx.index, finfo)
+        self.target = finfo.positional_params()[0]
+        self.touches = []
+
+    def may_raise(self, node, state):
+        return []
+
+    def effect(self, node, state):
+        if isinstance(node, tuple):
+            return state
+        s = state
+        for c in _calls(node):
+            f = c.func
+            if isinstance(f, ast.Attribute) and f.attr == "touch":
+                s = s.with_fact("touched", True).with_fact("deps_before_touch", bool(s.facts.get("deps_done"))).with_fact(
+                    "mkdir_before_touch", bool(s.facts.get("mkdir"))).note(node, "touch output")
+                self.touches.append((c, s))
+            if isinstance(f, ast.Attribute) and f.attr in ("mkdir",) or (self.index.canon(f, self.module) if isinstance(f, (ast.Name, ast.Attribute)) else None) in (
+                    "os.makedirs", "gwf.utils.ensure_dir"):
+                s = s.with_fact("mkdir", ast.unparse(c)).note(node, "create parent directory")
+            if isinstance(f, ast.Attribute) and f.attr == "update" and c.args and dotted(c.args[0]) == self.target:
+                s = s.with_fact("hashed", True).note(node, "spec hash recorded")
+        return s
 
 
 def run(ctx):
-    raise AnalysisError("rules for C16 not implemented yet")
+    idx = ctx.index
+    res = ctx.resolver
+    tw = idx.func("gwf.plugins.touch:touch_workflow")
+    visit = next(iter(tw.nested.values()), None)
+    tcon = f"{tw.module.relpath}::{tw.qual}"
+    r1 = ctx.rule("R1", "memoised post-order: all dependencies are visited before the target's own outputs are touched, each target once", min_instances=3)
+    if visit is None:
+        r1.violation(tcon, "the visitor of touch_workflow was not found", tw.where)
+        return
+    vcon = f"{visit.module.relpath}::{visit.qual}"
+    sem = VisitSem(ctx, visit)
+    graph_p = tw.positional_params()[1]
+
+    dep_loops = [n for n in walk_no_nested(visit.node) if isinstance(n, ast.For) and ast.unparse(n.iter) in (
+        f"{graph_p}.dependencies[{sem.target}]", f"sorted({graph_p}.dependencies[{sem.target}])") and any(
+        isinstance(c.func, ast.Name) and c.func.id == visit.name and dotted(c.args[0]) == dotted(n.target) for c in _calls(n))]
+
+    class Ex(Explorer):
+        def s_For(self, st, state):
+            outs = super().s_For(st, state)
+            if st in dep_loops:
+                outs = [type(o)(o.kind, o.state.with_fact("deps_done", True) if o.kind == "next" else o.state, o.payload, o.node) for o in outs]
+            return outs
+
+    outs = Ex(sem).run(State())
+    if not dep_loops:
+        r1.violation(vcon + "::recursion", "the visitor does not visit every dependency of the target (`for dep in graph.dependencies[target]: visit(dep)`)", visit.where)
+    early = [o for o in outs if o.kind == RETURN and not o.state.facts.get("deps_done")]
+    r1.check(not early and dep_loops, vcon + "::visits-all-deps", "every path through the visitor first visits all dependencies",
+             "a path leaves the visitor without visiting the target's dependencies (e.g. an early return for targets without outputs): the cone below is never touched",
+             visit.where, fmt_trace(early[0].state, visit.module) if early else None)
+    pre = [t for t in sem.touches if not t[1].facts.get("deps_before_touch")]
+    r1.check(sem.touches and not pre, vcon + "::post-order", "own outputs are touched after the dependencies (their files end up older)",
+             "a target's outputs can be touched before its dependencies': the dependency's files are then newer and the target is stale right after `gwf touch`",
+             visit.where, fmt_trace(pre[0][1], visit.module) if pre else None)
+    # memoisation, unbounded
+    memo = None
+    for d in visit.node.decorator_list:
+        name = dotted(d.func if isinstance(d, ast.Call) else d) or ""
+        canon = idx.canon(d.func if isinstance(d, ast.Call) else d, visit.module) or name
+        if canon in ("functools.lru_cache",):
+            if isinstance(d, ast.Call):
+                ms = [k.value for k in d.keywords if k.arg == "maxsize"] + list(d.args[:1])
+                memo = "unbounded" if ms and isinstance(ms[0], ast.Constant) and ms[0].value is None else "bounded"
+            else:
+                memo = "bounded"  # bare @lru_cache has maxsize=128
+        elif canon in ("functools.cache",):
+            memo = "unbounded"
+    if memo is None:
+        # visited-set guard idiom
+        guard = any(isinstance(n, ast.If) and isinstance(n.test, ast.Compare) and isinstance(n.test.ops[0], ast.In) and dotted(n.test.left) == sem.target
+                    and any(isinstance(s, ast.Return) for s in n.body) for n in visit.node.body[:2])
+        memo = "unbounded" if guard else None
+    r1.check(memo == "unbounded", vcon + "::memo", "each target is visited once (unbounded memo)",
+             ("the visitor's memo is bounded (lru_cache default maxsize=128): in a large workflow a shared dependency is evicted, visited again and re-touched "
+              "after its first dependents, which makes them stale") if memo == "bounded" else
+             "the visitor is not memoised: a shared dependency is touched again after its first dependent (diamond), which makes that dependent stale", visit.where)
+
+    r2 = ctx.rule("R2", "the only file effects of touch are mkdir of the parent and Path.touch(exist_ok=True) on flattened outputs of visited targets", min_instances=2)
+    r2.ok(tcon + "::effects", "effect scan of touch.py", tw.where)
+    for f in [tw, visit, idx.func("gwf.plugins.touch:touch")]:
+        for n in walk_no_nested(f.node):
+            for e in res.node_effects(n, f):
+                if e.kind in ("FS_DELETE",) or (e.kind == "FS_WRITE" and e.detail not in (".touch()", ".mkdir()", "os.makedirs")):
+                    r2.violation(f"{f.module.relpath}::{f.qual}::{e.detail}", f"touch performs `{e.detail}`: it must never alter the content of an existing file or remove one", e.where)
+    for c, st in sem.touches:
+        recv = c.func.value
+        arg = recv.args[0] if isinstance(recv, ast.Call) and recv.args else recv
+        var = dotted(arg)
+        loops = {n.target.id: ast.unparse(n.iter) for n in walk_no_nested(visit.node) if isinstance(n, ast.For) and isinstance(n.target, ast.Name)}
+        src = loops.get(var)
+        aliases = {n.targets[0].id: ast.unparse(n.value) for n in walk_no_nested(visit.node) if isinstance(n, ast.Assign) and isinstance(n.targets[0], ast.Name)}
+        src = aliases.get(src, src)
+        ok_src = src == f"{sem.target}.flattened_outputs()"
+        eo = any(k.arg == "exist_ok" and isinstance(k.value, ast.Constant) and k.value.value is True for k in c.keywords) or not c.keywords
+        r2.check(ok_src and eo, vcon + "::touch", f"Path({var}).touch() for {var} in target.flattened_outputs()",
+                 f"`{ast.unparse(c)[:60]}` does not touch exactly the flattened outputs of the visited target (ranges over `{loops.get(var)}`)", loc(c, visit.module))
+    if not sem.touches:
+        r2.violation(vcon + "::touch", "no output is ever touched", visit.where)
+
+    r3 = ctx.rule("R3", "the spec hash of every visited target is recorded; roots are the requested patterns or all endpoints", min_instances=3)
+    nohash = [o for o in outs if o.kind == RETURN and not o.state.facts.get("hashed")]
+    r3.check(not nohash, vcon + "::hash", "spec_hashes.update(target) on every path of the visitor",
+             "a visited target can leave the visitor without its spec hash recorded: with hashing on it is still stale after `gwf touch`", visit.where,
+             fmt_trace(nohash[0].state, visit.module) if nohash else None)
+    roots_ok = any(isinstance(n, ast.For) and dotted(n.iter) == tw.positional_params()[0] and any(
+        isinstance(c.func, ast.Name) and c.func.id == visit.name and dotted(c.args[0]) == dotted(n.target) for c in _calls(n)) for n in tw.node.body)
+    r3.check(roots_ok, tcon + "::roots", "every requested endpoint is visited", "touch_workflow does not visit every requested endpoint", tw.where)
+    rule_cone_selection(ctx, r3)
+    rule_exit_persists(ctx, r3)
+    rule_close_writes(ctx, r3)
+    tc = idx.func("gwf.plugins.touch:touch")
+    w_ok = any(isinstance(n, ast.With) and any("get_spec_hashes(" in ast.unparse(i.context_expr) for i in n.items) and any(
+        isinstance(c.func, (ast.Name, ast.Attribute)) and idx.canon(c.func, tc.module) == "gwf.plugins.touch.touch_workflow" for c in _calls(n)) for n in walk_no_nested(tc.node))
+    r3.check(w_ok, f"{tc.module.relpath}::{tc.qual}::with", "touching happens inside the with-block of the hash store", "touch_workflow is not enclosed by the spec-hash store's with-block", tc.where)
+
+    r4 = ctx.rule("R4", "missing outputs are created as empty files also when their directory does not exist yet")
+    nomk = [t for t in sem.touches if not t[1].facts.get("mkdir_before_touch")]
+    ok = sem.touches and not nomk
+    if ok:
+        mk = sem.touches[0][1].facts.get("mkdir")
+        ok = "parents=True" in mk.replace(" ", "") or "makedirs" in mk or "ensure_dir" in mk
+    r4.check(ok, vcon + "::parent-dir", "the parent directory is created (parents=True, exist_ok=True) before the touch",
+             "an output is touched without creating its parent directory first: `gwf touch` fails half-way with FileNotFoundError for results/x.txt in a fresh checkout",
+             visit.where, fmt_trace(nomk[0][1], visit.module) if nomk else None)
